@@ -1,10 +1,46 @@
-//! C06 — stub: property not yet claimed.
+//! C06 — message size limits are enforced exactly and without collateral loss.
 use crate::common::*;
+use crate::framing::*;
 
-pub fn generate(_tier: &str, _rng: &mut Rng) -> Vec<String> {
-    Vec::new()
+pub fn generate(tier: &str, rng: &mut Rng) -> Vec<String> {
+    let thorough = tier == "thorough";
+    let mut out = Vec::new();
+    // corpus: DESIGN §5.1 witness — [3 B, 3 B, 100 B] with encode limit 10, all ready at once
+    out.push(
+        EncCase { server: true, comp: None, disable: false, yield_thr: 32768, buf_size: 8192, max: Some(10),
+                  evs: vec!["i010203".into(), "i040506".into(), format!("i{}", "07".repeat(100))],
+                  items: vec![vec![1, 2, 3], vec![4, 5, 6], vec![7; 100]], extra_polls: 3 }.line(),
+    );
+    out.push(
+        EncCase { server: false, comp: None, disable: false, yield_thr: 32768, buf_size: 8192, max: Some(10),
+                  evs: vec!["i010203".into(), format!("i{}", "07".repeat(11)), "i09".into()],
+                  items: vec![vec![1, 2, 3], vec![7; 11], vec![9]], extra_polls: 3 }.line(),
+    );
+    // declared lengths up to 2^32-1 with no payload following, default and configured limits
+    for (max, len) in [(None, 0x0040_0001u32), (None, 0xFFFF_FFFF), (Some(0usize), 1u32), (Some(1024), 1025), (Some(5), 6), (None, 0x0040_0000)] {
+        let mut b = frame(0, &[1, 2]);
+        b.push(0);
+        b.extend_from_slice(&len.to_be_bytes());
+        let maxs = max.map(|m: usize| m.to_string()).unwrap_or_else(|| "none".into());
+        out.push(format!("dec req none {} 8192 6 Z 0 EV d{}", maxs, &hex(&b)[1..]));
+        // prefix split across chunks
+        out.push(format!("dec resp200 none {} 8192 8 Z 0 EV d{} p d{}", maxs, &hex(&b[..9])[1..], &hex(&b[9..])[1..]));
+    }
+    let n = if thorough { 30000 } else { 2500 };
+    for _ in 0..n {
+        let e = rng.chance(1, 3);
+        out.push(gen_enc_case(rng, e, true).line());
+    }
+    for _ in 0..n {
+        let mut c = gen_dec_valid(rng, true);
+        if c.dir == "empty" {
+            c.dir = "req".into();
+        }
+        out.push(c.line());
+    }
+    out
 }
 
-pub fn execute(_case: &str) -> String {
-    "unclaimed".into()
+pub fn execute(case: &str) -> String {
+    crate::framing::execute(case)
 }
